@@ -296,3 +296,71 @@ pub fn c05_inv_andor() {
         chk!(spec::inv(t), "rule preserves the type-system invariant");
     }
 }
+
+/// Dispatch: `Type::type_check` sends every leaf fragment to its own rule (the rule functions are
+/// compared with the specification above; a slip in the `match` of `type_check` is not a rule
+/// change and would otherwise only show behaviourally, in C06).
+// @h c05_dispatch_leaves timeout=1200 mem=8
+#[cfg_attr(kani, kani::proof)]
+#[cfg_attr(kani, kani::unwind(6))]
+pub fn c05_dispatch_leaves() {
+    use miniscript::bitcoin::hashes::Hash;
+    use miniscript::{AbsLockTime, RelLockTime, Segwitv0, Tap, Terminal, Threshold};
+    type Pk = miniscript::bitcoin::PublicKey;
+    let raw = unsafe { miniscript::bitcoin::secp256k1::ffi::PublicKey::from_array_unchecked([7u8; 64]) };
+    let pk = miniscript::bitcoin::PublicKey::new(miniscript::bitcoin::secp256k1::PublicKey::from(raw));
+    fn same<Ctx: miniscript::ScriptContext>(t: &Terminal<Pk, Ctx>, want: Type) -> bool {
+        match Type::type_check(t) {
+            Ok(ty) => ty == want,
+            Err(e) => {
+                core::mem::forget(e);
+                false
+            }
+        }
+    }
+    let h160 = miniscript::bitcoin::hashes::hash160::Hash::from_byte_array([1u8; 20]);
+    let sha = miniscript::bitcoin::hashes::sha256::Hash::from_byte_array([2u8; 32]);
+    let t: Terminal<Pk, Segwitv0> = Terminal::True;
+    chk!(same(&t, Type::TRUE), "type_check(1) is the rule for 1");
+    let t: Terminal<Pk, Segwitv0> = Terminal::False;
+    chk!(same(&t, Type::FALSE), "type_check(0) is the rule for 0");
+    let t: Terminal<Pk, Segwitv0> = Terminal::PkK(pk);
+    chk!(same(&t, Type::pk_k()), "type_check(pk_k) is the rule for pk_k");
+    let t: Terminal<Pk, Segwitv0> = Terminal::PkH(pk);
+    chk!(same(&t, Type::pk_h()), "type_check(pk_h) is the rule for pk_h");
+    let t: Terminal<Pk, Segwitv0> = Terminal::RawPkH(h160);
+    chk!(same(&t, Type::pk_h()), "type_check(raw pk_h) is the rule for pk_h");
+    if let Ok(l) = AbsLockTime::from_consensus(sym::u32_()) {
+        let t: Terminal<Pk, Segwitv0> = Terminal::After(l);
+        chk!(same(&t, Type::time()), "type_check(after) is the rule for time locks");
+    }
+    if let Ok(l) = RelLockTime::from_consensus(sym::u32_()) {
+        let t: Terminal<Pk, Segwitv0> = Terminal::Older(l);
+        chk!(same(&t, Type::time()), "type_check(older) is the rule for time locks");
+    }
+    let t: Terminal<Pk, Segwitv0> = Terminal::Sha256(sha);
+    chk!(same(&t, Type::hash()), "type_check(sha256) is the rule for hashes");
+    let t: Terminal<Pk, Segwitv0> = Terminal::Hash160(h160);
+    chk!(same(&t, Type::hash()), "type_check(hash160) is the rule for hashes");
+    if let Ok(th) = Threshold::new(1, vec![pk, pk]) {
+        let t: Terminal<Pk, Segwitv0> = Terminal::Multi(th);
+        chk!(same(&t, Type::multi()), "type_check(multi) is the rule for multi");
+        core::mem::forget(t);
+    }
+    if let Ok(th) = Threshold::new(1, vec![pk, pk]) {
+        let t: Terminal<Pk, Segwitv0> = Terminal::SortedMulti(th);
+        chk!(same(&t, Type::sortedmulti()), "type_check(sortedmulti) is the rule for sortedmulti");
+        core::mem::forget(t);
+    }
+    if let Ok(th) = Threshold::new(1, vec![pk, pk]) {
+        let t: Terminal<Pk, Tap> = Terminal::MultiA(th);
+        chk!(same(&t, Type::multi_a()), "type_check(multi_a) is the rule for multi_a");
+        core::mem::forget(t);
+    }
+    if let Ok(th) = Threshold::new(1, vec![pk, pk]) {
+        let t: Terminal<Pk, Tap> = Terminal::SortedMultiA(th);
+        chk!(same(&t, Type::sortedmulti_a()), "type_check(sortedmulti_a) is the rule for sortedmulti_a");
+        core::mem::forget(t);
+    }
+    cover!(true, "reached");
+}
